@@ -191,6 +191,7 @@ static void v_load_text(void)
 }
 enum { DF_RANDOM, DF_SMALLALPHA, DF_SKEWED, DF_RUNS, DF_LZ, DF_TEXT, DF_INTS, DF_MIX, DF_ISLANDS, DF_ZERO, DF_LONGREP, DF_REPBAIT, DF_SPARSE, DF_NB };
 static const char* const v_df_name[DF_NB] = { "random", "smallalpha", "skewed", "runs", "lz", "text", "ints", "mix", "islands", "zero", "longrep", "repbait", "sparse" };
+static int v_sparse_giant_force;   /* 1: force the "giant" sub-mode of DF_SPARSE (needs n >= 140000) */
 static int v_repbait_force;   /* 1: force the "one long literal run" sub-mode of DF_REPBAIT */
 static void gen_data(vrng* r, uint8_t* buf, size_t n, int fam);
 static void gen_lz(vrng* r, uint8_t* buf, size_t n)
@@ -243,9 +244,16 @@ static void gen_data(vrng* r, uint8_t* buf, size_t n, int fam)
     case DF_SPARSE: {   /* noise with one short match every few hundred bytes (near offsets, often from one offset-code / length-code class): blocks and - with
                          * targetCBlockSize - sub-blocks that hold a single cheap sequence (tiny sequence sections, tables in RLE / repeat mode) */
         int const narrow = vr_chance(r, 1, 2);
-        size_t const gapLo = 100 + vr_u(r, 900), gapSpan = 1 + vr_u(r, narrow ? 60 : 900); size_t const offLo = 1 + vr_u(r, 60), offSpan = 1 + vr_u(r, narrow ? 8 : vr_chance(r, 1, 2) ? 20 : 3000); size_t const mlLo = 4 + vr_u(r, 30); size_t const mlSpan = 1 + vr_u(r, narrow ? 4 : 40); size_t pos = 0;
+        /* sub-mode "giant": all matches 3..6 bytes long plus ONE match of >= 65539 bytes inside one block: a match-length table whose description is a long run of
+         * zero-probability symbols between the lowest codes and the highest one */
+        int const giant = n >= 90000 && (vr_chance(r, 1, 4) || v_sparse_giant_force);
+        size_t const gapLo = 100 + vr_u(r, 900), gapSpan = 1 + vr_u(r, narrow ? 60 : 900); size_t const offLo = 1 + vr_u(r, 60), offSpan = 1 + vr_u(r, narrow ? 8 : vr_chance(r, 1, 2) ? 20 : 3000); size_t const mlLo = giant ? 4 + vr_u(r, 2) : 4 + vr_u(r, 30); size_t const mlSpan = giant ? 1 + vr_u(r, 2) : 1 + vr_u(r, narrow ? 4 : 40); size_t pos = 0;
         while (pos < n) { size_t g = gapLo + vr_u64(r, gapSpan); if (g > n - pos) g = n - pos; vr_fill(r, buf + pos, g); pos += g; if (pos >= n) break;
             size_t ml = mlLo + vr_u64(r, mlSpan); if (ml > n - pos) ml = n - pos; size_t off = offLo + vr_u64(r, offSpan); if (off > pos) off = pos; for (size_t i = 0; i < ml; i++) buf[pos + i] = buf[pos + i - off]; pos += ml; }
+        if (giant) { size_t const L = 65539 + vr_u64(r, V_MIN((size_t)20000, n - 65539 - 8000)); size_t const nblk = (n + (128u << 10) - 1) / (128u << 10); size_t const blk = vr_u64(r, nblk); size_t const blkLen = V_MIN((size_t)(128u << 10), n - blk * (128u << 10));
+            size_t const q = blk * (128u << 10) + ((blkLen > L + 6000) ? 6000 + vr_u64(r, blkLen - L - 6000) : 6000);
+            size_t const dist = (q >= L && vr_chance(r, 1, 2)) ? L + vr_u64(r, q - L + 1) : 200 + vr_u64(r, 5000);      /* far copy, or a periodic stretch (offset < length) */
+            if (q + L <= n) for (size_t i = 0; i < L; i++) buf[q + i] = buf[q + i - dist]; }
         break; }
     case DF_REPBAIT: { /* repcode-history bait: periodic data whose period flips among a few values (rep1/rep2/rep3 traffic,
                           matches after 0 / 1 literal), interrupted by incompressible stretches that contain isolated short
